@@ -86,4 +86,11 @@ def magDivisorSq (m1 m2 : Rat) : Rat := absRat (m1 * m2)
 /-- the unrepaired code takes `sqrt (M₁ M₂)`, which is not a real number for a negative product -/
 def magDivisorSqOld (m1 m2 : Rat) : Option Rat := if m1 * m2 < 0 then none else some (m1 * m2)
 
+/-- Round 5: the cell areas of the grid `Magnifier.forward` returns (`grid.scaled(M)` multiplies every weight — a scalar, or one
+per point — by the Jacobian `|M₁ M₂|`); the input grid's own weights are an argument, nothing is remembered between calls. -/
+def magWeights (m1 m2 : Rat) (w : Nat → Rat) : Nat → Rat := fun i => w i * magWeightFactor m1 m2
+
+/-- … and of the grid `Magnifier.backward` returns (`grid.scaled(1/M)`). -/
+def magWeightsBack (m1 m2 : Rat) (w : Nat → Rat) : Nat → Rat := fun i => w i / magWeightFactor m1 m2
+
 end HcipyVerif.PhaseOptics
